@@ -1095,7 +1095,7 @@ def build_transform_scenario(c) -> Scenario:
         pool.append(m)
         steps = [(0, 1, f"tmatrix {TCLASSES[cls][2]}", lambda s, a: s.matrix(a))]
     elif acc == "copy":
-        steps = [(0, None, "tcopy", lambda s, a: pycopy.copy(s))]
+        steps = [(0, None, f"tcopy {flags}", lambda s, a: pycopy.copy(s))]
     elif acc == "deep":
         def toks(gr=None):
             return ""
@@ -1495,10 +1495,10 @@ def _impl_canon_composite(c):
     t = S.SequentialTransform(child)
     t.update()
     if c["acc"] == "condition":
-        sc = Scenario([t, (torch.rand(1, 3),)], [(0, 1, "tcopy", lambda s_, a: s_.condition(*a))])
+        sc = Scenario([t, (torch.rand(1, 3),)], [(0, 1, "tcopy 0 0 0 0 0 0 1", lambda s_, a: s_.condition(*a))])
     else:
         g2 = Grid(size=(17, 17), spacing=(0.5, 0.25), center=(1.0, -2.0), align_corners=True)
-        sc = Scenario([t, g2], [(0, 1, "tcopy", lambda s_, a: s_.grid(a))])
+        sc = Scenario([t, g2], [(0, 1, "tcopy 0 0 0 0 0 0 1", lambda s_, a: s_.grid(a))])
     rec, _, g = sc.run()
     out = set()
     for p in [_names(g, q) for q in _receiver_changes(rec, 0, 0)]:
